@@ -2270,6 +2270,17 @@ func (db *DB) Drop(ctx context.Context) (err error) {
 		return fmt.Errorf("cannot drop database %q: halt lock held by a remote node: %w", db.name, syscall.EBUSY)
 	}
 
+	// A deletion is a local transaction as well: it must not run inside an
+	// import, a restore, a checkpoint, the apply of a forwarded transaction or
+	// an application's transaction, all of which compute the next transaction
+	// ID. Do not wait for the lock; the kernel holds the directory locked
+	// while we are here so a client could not finish its transaction.
+	guardSet := db.TryAcquireWriteLock()
+	if guardSet == nil {
+		return fmt.Errorf("cannot drop database %q: database is locked: %w", db.name, syscall.EBUSY)
+	}
+	defer guardSet.Unlock()
+
 	var msg string
 	var commit uint32
 	var txPageCount int
